@@ -193,6 +193,10 @@ class TDS(BaseRoutine):
             return system.dae.xy
 
         self.reset()
+
+        # the integration method may have been changed in `config` after construction
+        self.set_method(self.config.method)
+
         self._load_pert()
 
         # restore power flow solutions
